@@ -292,6 +292,60 @@ fn boundary_case(rng: &mut Rng, len: usize) -> StreamCase {
     StreamCase { pats, cfg, data, schedule, spare: None, repl, partial_writes: rng.chance(1, 3) }
 }
 
+/// A case aimed at the interplay of prefilters and buffer refills: a pattern
+/// list that selects a prefilter (standard semantics: memmem, start bytes,
+/// rare bytes), patterns of different lengths, a mid-sized buffer (so that
+/// dozens to hundreds of unsearched bytes are buffered at a time), long runs
+/// of bytes that are no candidate for any prefilter, and medium-sized reads
+/// that cut occurrences at every possible position.
+fn prefilter_stream_case(rng: &mut Rng) -> StreamCase {
+    let (pats, ci) = loop {
+        let (p, ci) = crate::meta::prefilter_patterns(rng);
+        if p.iter().all(|q| !q.is_empty()) && p.iter().map(|q| q.len()).sum::<usize>() < 400 {
+            break (p, ci);
+        }
+    };
+    let mut used = [false; 256];
+    for p in &pats {
+        for &b in p {
+            used[b as usize] = true;
+            if b.is_ascii_alphabetic() {
+                used[(b ^ 0x20) as usize] = true;
+            }
+        }
+    }
+    let filler = (b'0'..=b'9').chain(0x80..=0xFEu8).find(|&b| !used[b as usize]).unwrap_or(b'0');
+    let mut data: Vec<u8> = vec![];
+    let segments = rng.range(2, 8);
+    for _ in 0..segments {
+        let run = *rng.pick(&[0usize, 3, 17, 63, 64, 65, 100, 130, 300, 700]);
+        data.extend(std::iter::repeat(filler).take(run));
+        let p = rng.pick(&pats).clone();
+        data.extend_from_slice(&p);
+        if rng.chance(1, 3) {
+            // a near miss right after it
+            let mut q = rng.pick(&pats).clone();
+            let i = rng.below(q.len());
+            q[i] = filler;
+            data.extend_from_slice(&q);
+        }
+    }
+    data.extend(std::iter::repeat(filler).take(rng.range(0, 80)));
+    let cfg = Cfg {
+        imp: *rng.pick(&Imp::ALL),
+        kind: Kind::Standard,
+        sk: crate::cfg::SK::Unanchored,
+        ci,
+        pre: true,
+        dense_depth: None,
+        byte_classes: true,
+    };
+    let schedule: Vec<usize> = (0..rng.range(1, 6)).map(|_| *rng.pick(&[1usize, 7, 50, 64, 65, 100, 257, 304, 700, 0])).collect();
+    let spare = *rng.pick(&[Some(64usize), Some(100), Some(257), Some(1000), Some(4096), None]);
+    let repl: Vec<Vec<u8>> = (0..pats.len()).map(|i| format!("<{}>", i).into_bytes()).collect();
+    StreamCase { pats, cfg, data, schedule, spare, repl, partial_writes: rng.chance(1, 4) }
+}
+
 fn gen_case(rng: &mut Rng, tier: Tier, force_default_capacity: bool, for_faults: bool) -> StreamCase {
     let mut prof = Profile::nonempty();
     prof.max_len = 8;
@@ -787,6 +841,21 @@ pub fn run(prop: &str, ctx: &Ctx, rep: &mut Report) {
                         "C07" => c07_check(rep, &c, &s),
                         _ => c08_check(rep, &c, &s),
                     }
+                }
+            }
+        }
+    }
+    // prefilter x refill family
+    if prop != "C18" {
+        let np = ctx.tier.pick(5, 1500, 80_000);
+        for i in 0..np {
+            let mut rng = root.fork(0xF1_0000 + i as u64);
+            let c = prefilter_stream_case(&mut rng);
+            if let Some(s) = build(rep, &c) {
+                rep.tally("prefilter_refill_cases");
+                match prop {
+                    "C07" => c07_check(rep, &c, &s),
+                    _ => c08_check(rep, &c, &s),
                 }
             }
         }
